@@ -52,9 +52,12 @@ fn fill_case(ctx: &mut Ctx, max_edges: usize) {
         cfg.put(&mut args);
         let edges = poly.edges();
         put_edges(&mut args, &edges);
-        let tag = format!("fill {} {} n={}", poly.kind, ENTRY_NAMES[cfg.entry], edges.len().min(30));
+        // the object's history (drawn last: case ids keep their polygons); not part of the CASE line,
+        // replayable from (seed, case id)
+        let hist = History::gen(rng);
+        let tag = format!("fill {} {} n={} {}", poly.kind, ENTRY_NAMES[cfg.entry], edges.len().min(30), hist.tag());
         (args, tag, move || {
-            let mut tess = FillTessellator::new();
+            let mut tess = hist.tessellator();
             let mut mesh = Mesh::new();
             let res = run_fill(&mut tess, &poly, &cfg, &mut mesh);
             let mut o = Out::new();
